@@ -687,7 +687,8 @@ class Bf3File:
             try:
                 cls.exec_bf2instrs(bf2_instrs, desc, comments)
             except UnsupportedBf2InstrError:
-                pass
+                # the section is left out: its data must not wait for the next section
+                bf2_fwdata[:] = []
             except (ValueError, IndexError, KeyError, OverflowError, TypeError):
                 raise Bf3FileFormatError("Invalid BF2 Instruction")
             else:
